@@ -16,6 +16,8 @@ def m3(a, b, c): return ('m3', a, b, c)
 def at(a, x): return ('at', a, x)
 def ta(x, a): return ('ta', x, a)
 def w(a, b, c, d): return ('w', a, b, c, d)
+def w4(a, b, c, d): return ('w4', a, b, c, d)
+def v4(a, b, c, d): return ('v4', a, b, c, d)
 def mvar(a): return ('mvar', a)
 def madd(x, y): return ('madd', x, y)
 def mmul(x, y): return ('mmul', x, y)
@@ -55,6 +57,9 @@ QUICK = [
     T('TH4', 'Lf', 4, [add(h(0, 1, 2)), add(h(0, 1, 3)), union(h(0, 1, 2), h(0, 1, 3)), add(h(1, 0, 2)), readd(h(0, 1, 3))], note='third argument becomes redundant (or more, depending on sharing)'),
     T('TORB', 'Lf', 4, [add(h(0, 1, 2)), add(h(1, 0, 2)), union(h(0, 1, 2), h(1, 0, 2)), add(h(3, 1, 2)), union(h(0, 1, 2), h(3, 1, 2)), add(h(0, 3, 2))],
       distinct=[[0, 1, 2, 3]], note='a slot in a non-trivial symmetry orbit becomes redundant: the whole orbit must go'),
+    T('TW3', 'Lb', 4, [add(u(v4(0, 1, 2, 3))), add(w4(0, 1, 2, 3)), add(w4(1, 0, 2, 3)), union(w4(0, 1, 2, 3), w4(1, 0, 2, 3)), add(w4(0, 1, 3, 2)), union(w4(0, 1, 2, 3), w4(0, 1, 3, 2)),
+                       union(w4(0, 1, 2, 3), v4(0, 1, 2, 3)), add(v4(1, 0, 3, 2)), add(v4(0, 1, 3, 2)), add(v4(0, 2, 1, 3))], distinct=[[0, 1, 2, 3]], ordered=[[0, 1, 2, 3]],
+      note='four slots, two independent swaps (a stabiliser chain of depth 2), then the class is merged into a class that has a parent: every generator must be transported [names assumed increasing]'),
     # --- children, binders, upward merging
     T('B1', 'Lb', 2, [add(lam(0, var(0))), add(lam(1, var(1))), add(app(lam(0, var(0)), lam(1, var(1)))), readd(lam(1, var(1)))], note='alpha-equivalent lambdas are one class with no slots'),
     T('B2', 'Lb', 3, [add(app(var(0), var(1))), add(var(2)), union(app(var(0), var(1)), var(2))], note='app(var a, var b) = var c: children, redundancy through a union, self reference when c in {a,b}'),
@@ -89,6 +94,10 @@ QUICK = [
       note='a class shrinks twice: first by a union of two of its own instances, then because a child loses its slot; the parent must follow both times'),
     T('B18', 'Lb', 3, [add(t3(0, 1, 2)), add(t3(1, 0, 2)), union(t3(0, 1, 2), t3(1, 0, 2)), add(t3(0, 2, 1)), union(t3(0, 1, 2), t3(0, 2, 1)), add(u(t3(0, 1, 2))), add(u(t3(1, 2, 0))), add(u(t3(2, 1, 0)))],
       distinct=[[0, 1, 2]], note='a parent is inserted over a class that already has the full symmetric group: it must pick up both generators at once'),
+    T('B19', 'Lb', 2, [add(app(u(k(0, 1)), var(1))), add(k(1, 0)), union(k(0, 1), k(1, 0)), readd(app(u(k(0, 1)), var(1))), add(app(u(k(1, 0)), var(1))), add(app(u(k(1, 0)), var(0)))], distinct=[[0, 1]],
+      note='a grandparent inserted before its grandchild class becomes symmetric: the parent class inherits the symmetry and ITS users must be re-canonicalised too (re-insertion must find the node)'),
+    T('B20', 'Lb', 2, [add(u(k(0, 1))), add(u(j(1, 0))), union(u(k(0, 1)), u(j(1, 0))), add(j(0, 1)), union(k(0, 1), j(0, 1)), add(u(k(1, 0))), readd(u(j(0, 1))), add(app(u(k(0, 1)), u(k(1, 0))))], distinct=[[0, 1]],
+      note='u(k(x,y)) = u(j(y,x)), then k(x,y) = j(x,y): the two nodes of the parent class collide with exchanged slots - the class gains a symmetry by congruence within itself'),
 ]
 
 
@@ -132,6 +141,8 @@ RW = [
       note='multi-pattern with a repeated slot across equations: ?r == (app ?a ?b), ?a == (var $x), ?b == (var $x)'),
     T('M2', 'Lb', 4, [add(app(var(0), var(1))), add(lam(0, app(var(0), var(1)))), ematch(app('?a', '?b')), ematch(app('?a', '?a')), ematch(lam(2, '?b')), ematch(app(var(3), '?b'))], late={2: 4, 3: 5},
       note='patterns with variables, a repeated variable, a binder, a nested leaf'),
+    T('M6', 'Lb', 2, [add(app(k(0, 1), k(1, 0))), ematch(app('?a', '?a')), add(app(k(0, 1), k(0, 1))), ematch(app('?a', '?a'))], distinct=[[0, 1]],
+      note='repeated variable against two invocations of one class that differ in the ORDER of their arguments (the class has no symmetry): no match before the second insertion, one after'),
     T('M5', 'Lb', 6, [add(ta(k(0, 1), 2)), ematch(ta('?a', 3)), ematch(ta(k(3, 4), 5))], late={3: 1, 4: 1, 5: 1}, distinct=[[0, 1, 2]],
       note='node type whose child comes before its own slot: the pattern slot must be paired with the node slot, not with a slot of the child'),
     T('MM3', 'Lb', 3, [add(app(var(0), var(1))), mmatch(('?q', app('?b', '?c')), ('?r', app('?a', '?b')), ('?a', var(2)), ('?b', var(2)))], late={2: 1},
@@ -156,6 +167,11 @@ RW = [
       note='both sides of the rule instance lie in one class with different slot arguments: a slot becomes redundant, nothing else changes'),
     T('R9', 'Lb', 4, [add(u(k(0, 1))), rewrite(rule('shrink', k(2, 3), j(2, 2)), rule('wrap', u('?x'), app('?x', '?x'))), probe(app(k(0, 1), k(0, 1))), probe(app(j(0, 0), j(0, 0)))], late={2: 1, 3: 1},
       note='two rules in one call: the first one merges the class bound by a match of the second one into another class; the second match must still be applied'),
+    T('R10', 'Lb', 2, [add(app(k(0, 1), var(0))), add(app(k(0, 1), var(1))), union(app(k(0, 1), var(0)), app(k(0, 1), var(1))), rewrite(rule('comm', app('?p', '?q'), app('?q', '?p'))),
+                       probe(app(var(0), k(0, 1))), probe(app(var(1), k(0, 1)))], distinct=[[0, 1]],
+      note='two e-nodes of one class bind the same classes under different slot arguments: both are instances and both must fire'),
+    T('R11', 'Lb', 2, [add(app(app(var(0), lam(1, var(1))), var(0))), rewrite(rule('absorb', app('?x', lam(1, var(1))), lam(1, var(1))), rule('pick', app(app('?a', '?b'), '?a'), u('?a'))), probe(u(var(0)))],
+      note='two rules in one call: the first makes a slot redundant inside an instance of the second; all rules are searched before any is applied, so the second instance must still fire'),
 ]
 
 for _t in RW:
